@@ -116,7 +116,9 @@ func newApplierEnv(seed int64, td uint64, variant int) *applierEnv {
 	return &applierEnv{
 		conc:    newConcretizer(seed),
 		proto:   p,
-		applier: operationapplier.New(p, operationparser.New(p), doccomposer.New()),
+		// (the applier parses ANCHORED operations: a time validator, which judges requests that are not anchored
+		// yet, has no say - the one installed refuses everything)
+		applier: operationapplier.New(p, operationparser.New(p, operationparser.WithAnchorTimeValidator(refusingTimeValidator{})), doccomposer.New()),
 		pubOps:  []*operation.AnchoredOperation{{Type: operation.TypeCreate, UniqueSuffix: "pub", CanonicalReference: "p0", TransactionTime: 1}},
 		unpub:   []*operation.AnchoredOperation{{Type: operation.TypeUpdate, UniqueSuffix: "unpub", TransactionTime: 2}},
 	}
@@ -376,7 +378,7 @@ func (e *applierEnv) tightApplier(size uint) *operationapplier.Applier {
 
 	p := e.proto
 	p.MaxDeltaSize = size
-	a := operationapplier.New(p, operationparser.New(p), doccomposer.New())
+	a := operationapplier.New(p, operationparser.New(p, operationparser.WithAnchorTimeValidator(refusingTimeValidator{})), doccomposer.New())
 	e.tight[size] = a
 
 	return a
